@@ -37,6 +37,9 @@ def specs(tier):
         J('fork-steady2:H1S1K1P1', 'steady', dict(n=2, journal='file+dump', use_fork=True), dict(H=1, S=1, K=1, P=1), dict(k=2)),
         J('fork-lagging3:H2R1K1S1', 'lagging', dict(n=3, journal='file+dump', use_fork=True, chunk=100), dict(H=2, R=1, K=1, S=1)),
         # the connection breaks in the middle of a multi-chunk snapshot transfer (inside the leader's send call)
+        # the receiver's own compaction fires while a multi-piece snapshot is coming in (two writers, one directory)
+        J('file-lagsnap3-chunk64-owncompact:H1R1K1P1', 'lagging_snap', dict(n=3, journal='file+dump', chunk=64, kill_only=('n3:1',), write_buffer=100),
+          dict(H=1, R=1, K=1, P=1)),
         J('file-lagsnap3-chunk64-sendfault:H2R2X1', 'lagging_snap', dict(n=3, journal='file+dump', chunk=64, send_faults=True), dict(H=2, R=2, X=1)),
         J('mem-lagsnap3-chunk64-sendfault:H2R2X1', 'lagging_snap', dict(n=3, chunk=64, send_faults=True), dict(H=2, R=2, X=1)),
         # a dump that cannot be written once (no fork: the failure happens inside the tick), then everything goes on
